@@ -165,6 +165,7 @@ macro_rules! two_harness {
             #[kani::stub(crate::store_impl::StoreImpl::do_reduce, crate::verif_kani::g_two::sum2_reduce)]
             #[kani::stub(crate::store_impl::StoreImpl::do_effect, crate::verif_kani::g_two::sum2_effect)]
             #[kani::stub(crate::store_impl::StoreImpl::do_notify, crate::verif_kani::g_two::sum2_notify)]
+            #[kani::stub(crossbeam::hooks::yield_point, crate::verif_kani::rt::default_yield)]
             $(#[$m])*
             fn $name() $body
         }
@@ -198,6 +199,7 @@ fn check_store(s: usize, k: usize, acts: &[u8; MAXA], init: St, at_most: u8) {
 fn two(b_drop: bool, ka: usize, kb: usize) {
     rt::reset_all();
     script::reset();
+    crossbeam::hooks::set_native(Some(rt::default_yield), None);
     unsafe {
         PH2 = [[[PH0; 3]; MAXA]; 2];
         SHARED_UNSUB = 0;
